@@ -194,26 +194,22 @@ func UnmarshalAttribute(attr *api.Attribute) (bgp.PathAttributeInterface, error)
 					}
 				case *api.TunnelEncapTLV_TLV_SrSegmentList:
 					var err error
-					weight := uint32(0)
-					flags := uint8(0)
-					if sv.SrSegmentList.Weight != nil {
-						weight = sv.SrSegmentList.Weight.Weight
-						flags = uint8(sv.SrSegmentList.Weight.Flags)
-					}
 					s := &bgp.TunnelEncapSubTLVSRSegmentList{
 						TunnelEncapSubTLV: bgp.TunnelEncapSubTLV{
 							Type:   bgp.ENCAP_SUBTLV_TYPE_SRSEGMENT_LIST,
 							Length: uint16(6), // Weight (6 bytes) + length of segment (added later, after all segments are discovered)
 						},
-						Weight: &bgp.SegmentListWeight{
+						Segments: make([]bgp.TunnelEncapSubTLVInterface, 0),
+					}
+					if w := sv.SrSegmentList.Weight; w != nil { // the Weight sub-TLV is optional
+						s.Weight = &bgp.SegmentListWeight{
 							TunnelEncapSubTLV: bgp.TunnelEncapSubTLV{
 								Type:   bgp.SegmentListSubTLVWeight,
 								Length: uint16(6),
 							},
-							Flags:  flags,
-							Weight: weight,
-						},
-						Segments: make([]bgp.TunnelEncapSubTLVInterface, 0),
+							Flags:  uint8(w.Flags),
+							Weight: w.Weight,
+						}
 					}
 					if len(sv.SrSegmentList.Segments) != 0 {
 						s.Segments, err = UnmarshalSRSegments(sv.SrSegmentList.Segments)
@@ -2839,12 +2835,14 @@ func NewTunnelEncapAttributeFromNative(a *bgp.PathAttributeTunnelEncap) (*api.Tu
 				}
 				subTlv.Tlv = &api.TunnelEncapTLV_TLV_SrSegmentList{
 					SrSegmentList: &api.TunnelEncapSubTLVSRSegmentList{
-						Weight: &api.SRWeight{
-							Flags:  uint32(sv.Weight.Flags),
-							Weight: sv.Weight.Weight,
-						},
 						Segments: s,
 					},
+				}
+				if sv.Weight != nil { // the Weight sub-TLV is optional
+					subTlv.GetSrSegmentList().Weight = &api.SRWeight{
+						Flags:  uint32(sv.Weight.Flags),
+						Weight: sv.Weight.Weight,
+					}
 				}
 			}
 			subTlvs = append(subTlvs, &subTlv)
